@@ -176,6 +176,37 @@ func (n *Node) WaitCommitted(rev uint64, d time.Duration) bool {
 	}
 }
 
+// CommittedOrSkipped waits until the read revision reaches rev. Call it only when every revision up to rev has been
+// deposited (every client call has returned, Conservation reports nothing missing). It counts the sequencer's own
+// steps instead of time: each call of the seq.idle hook is one pass in which the sequencer looked at the slot of
+// (read revision + 1) and found it empty. If that happens `polls` times in a row while the read revision stands
+// still below rev, the deposit of that slot is gone for good - skipped=true, decided without a clock. If the
+// sequencer does not even poll, the watchdog d ends the wait (both false).
+func (n *Node) CommittedOrSkipped(rev uint64, polls int64, d time.Duration) (reached, skipped bool) {
+	deadline := time.Now().Add(d)
+	last := n.Committed()
+	base := atomic.LoadInt64(&n.idleCalls)
+	for i := 0; ; i++ {
+		cur := n.Committed()
+		if cur >= rev {
+			return true, false
+		}
+		if cur != last {
+			last, base = cur, atomic.LoadInt64(&n.idleCalls)
+		} else if atomic.LoadInt64(&n.idleCalls)-base >= polls {
+			return false, true
+		}
+		if time.Now().After(deadline) {
+			return false, false
+		}
+		if i < 50 {
+			runtime.Gosched()
+		} else {
+			time.Sleep(50 * time.Microsecond)
+		}
+	}
+}
+
 // Conservation compares the revisions deposited through notify with the interval (start, dealt].
 // Call only when every client call has returned and the retry queue is empty.
 func (n *Node) Conservation() (missing []uint64, dup []uint64, dealt uint64, dropped int64) {
